@@ -48,6 +48,25 @@ theorem this_clone_shares_nothing {w w' : World} {i : Nat} {v : Iov} (h : w.step
     NoShare w' i w.iovs.length ∧ NoShare w' w.iovs.length i :=
   noShare_clone h hv hnp
 
+/-- `take` moves the relation with the value (the fresh handle stands where the taken one stood), and a
+clone inherits what its original shares with third parties: so a pair of iovecs shares placeholder memory
+only through a lineage of `take`s back to a `clone` taken while the placeholder was pending. -/
+theorem no_share_moves_with_take {w w' : World} {i : Nat} (h : w.step (.take i) = some w') {X : Nat}
+    (hX : X ≠ w.iovs.length) (hXi : X ≠ i) :
+    (NoShare w X i → NoShare w' X w.iovs.length) ∧ (NoShare w i X → NoShare w' w.iovs.length X) :=
+  noShare_take h hX hXi
+
+theorem no_share_inherited_by_clone {w w' : World} {i : Nat} (h : w.step (.clone i) = some w') {X : Nat}
+    (hX : X ≠ w.iovs.length) :
+    (NoShare w X i → NoShare w' X w.iovs.length) ∧ (NoShare w i X → NoShare w' w.iovs.length X) :=
+  noShare_clone_other h hX
+
+/-- In a history in which every clone found nothing pending (the global premise of `Props/C20.lean`) the
+side condition `FillPrivate` of `Props/C03W.lean` / `C04W.lean` holds at every step. -/
+theorem fill_private_of_clean_clones {w : World} {caps : Nat → Nat} (hr : CReach w caps) (op : WOp) :
+    FillPrivate w op :=
+  fun _ _ _ _ _ hj => noShare_of_private hr.priv.priv (fun e => hj e.symm)
+
 /-- The global premise of `Props/C20.lean` implies the pairwise one, for every pair. -/
 theorem private_gives_no_share {w : World} (hp : PendingPrivate w) {X Y : Nat} (hXY : X ≠ Y) : NoShare w X Y :=
   noShare_of_private hp hXY
